@@ -155,7 +155,18 @@ def check(ctx):
         t = sharded(ctx, "sim", ["-mode", "sim", "-count", 300, "-ticks", "-seed", ctx.seed] + probe, shards, scenarios=300, per_process=12)
         runner.run_job(ctx, _job(ctx, "sim", t, _replay))
         paths.append(t)
+    # model -> code: behaviours simulated by TLC from RangeGen.tla, replayed on the real plugin
+    scns = core.simulate_scenarios(ctx.scratch, "RangeGen", "RangeGen.cfg", 80 if ctx.quick else 1500, 60, ctx.seed)
+    if len(scns) < 5:
+        raise Infra("TLC simulation produced only %d behaviours" % len(scns))
+    wd = ctx.scratch.sub("range-letters")
+    jf = os.path.join(wd, "behaviours.json")
+    json.dump(scns, open(jf, "w"))
+    t = sharded(ctx, "letters", ["-mode", "letters", "-in", jf, "-n", 3, "-seed", ctx.seed] + probe, shards, scenarios=len(scns), per_process=150)
+    runner.run_job(ctx, _job(ctx, "letters", t, _replay))
+    paths.append(t)
     st = _stats(paths)
+    st["tlc_generated_behaviours_replayed"] = len(scns)
     if prop == "C02":
         h = ctx.need_harness()
         wd = ctx.scratch.sub("range-conc")
